@@ -1,5 +1,5 @@
 (** C04 — only a record's owner can change it or release its assets. *)
-From FM Require Import Auth Reentrant.
+From FM Require Import Auth Reentrant CallSeq.
 
 (** [op_initiator o] is the account that sends operation [o] (the transaction sender, or the
     user who asks an honest token contract to send).  [honest_op o] excludes only a direct call
@@ -69,6 +69,21 @@ Theorem C04_no_wallet_decrease_with_reentry : forall w o prog a,
   nondecr w (fst (rstep w o prog)) a.
 Proof. exact rstep_others_nondecreasing. Qed.
 Print Assumptions C04_no_wallet_decrease_with_reentry.
+
+(** Under every interleaving (proofs/CallSeq.v): along any sequence of successful marketplace
+    calls none of which acts for account [a] ([foreign a]: not sent by [a], no hook call naming
+    [a] as depositor) — whatever their order or nesting — a bucket of [a] is untouched and a
+    listing of [a] is untouched until somebody buys it. *)
+Theorem C04_others_cannot_touch_my_bucket : forall a id b s s',
+  Inv s -> foreign a s s' -> find_key (a, id) (buckets s) = Some b -> find_key (a, id) (buckets s') = Some b.
+Proof. exact others_cannot_touch_my_bucket. Qed.
+Print Assumptions C04_others_cannot_touch_my_bucket.
+
+Theorem C04_others_can_only_buy_my_listing : forall a id l s s',
+  Inv s -> foreign a s s' -> find_key (a, id) (listings s) = Some l ->
+  find_key (a, id) (listings s') = Some l \/ (3 <= lrank s' id)%nat.
+Proof. exact others_can_only_buy_my_listing. Qed.
+Print Assumptions C04_others_can_only_buy_my_listing.
 
 Definition ask1 : gbal := mkG [(0, 5)] [] [].
 Definition l1 : listing := mkL 1 7 None None BeingPrepared None None (mkG [(0, 10)] [] []) ask1 None.
